@@ -214,10 +214,10 @@ PLAN['C14'] = {
 }
 
 
-def partial(name, acts, maxn, adds, stack=0, und=0, fr=0, **kw):
+def partial(name, acts, maxn, adds, stack=0, und=0, fr=0, rst=0, **kw):
     st = {
         'kind': 'gen_replay', 'name': name, 'module': 'Partial', 'fam': 'partial', 'spec': 'Spec', 'view': 'View',
-        'constants': {'MaxN': maxn, 'MaxAdds': adds, 'MaxStack': stack, 'MaxUnd': und, 'MaxFr': fr, 'Acts': S(acts)},
+        'constants': {'MaxN': maxn, 'MaxAdds': adds, 'MaxStack': stack, 'MaxUnd': und, 'MaxFr': fr, 'MaxRst': rst, 'Acts': S(acts)},
         'invariants': ['TypeOK', 'BoundsOK'],
     }
     st.update(kw)
@@ -358,4 +358,73 @@ PLAN['C16'] = {
                     'strings, not exhaustively',
                     'ProofPositions is judged on antichains of in-forest targets (the only inputs the library produces)',
                     'DetectOffset is judged on positions inside the forest'],
+}
+
+
+# C17 spans every family that passes caller-owned slices to the library (the monitor is active in all of them)
+_c17_core = PLAN['C17']['stages']
+PLAN['C17']['stages'] = lambda tier, seed: (
+    _c17_core(tier, seed) +
+    ([light('light_undo1', ['block', 'undoblock'], 5, 3, stack=1, und=1),
+      ops('ops_add', ['addproof'], 5), ops('ops_subset', ['subset'], 5), ops('ops_missing', ['missing'], 5),
+      partial('partial_all', ALLP, 4, 2, stack=1, und=1, fr=1)] if tier == 'quick' else
+     [light('light_undo2', ['block', 'undoblock'], 5, 3, stack=2, und=2),
+      ops('ops_add', ['addproof'], 6), ops('ops_subset', ['subset'], 6), ops('ops_missing', ['missing'], 6),
+      partial('partial_all', ALLP, 5, 3, stack=2, und=2, fr=1)]))
+PLAN['C17']['rule'] = (
+    'every library call made while replaying the behaviours of spec/Core.tla (Verify, Stump.Update, Pollard/MapPollard '
+    'Verify, Prove, Modify, Undo, GetLeafHashPositions), spec/LightClient.tla (Stump.Update, Proof.Update, Proof.Undo, '
+    'Verify), spec/ProofOps.tla (AddProof, GetProofSubset, MapPollard.GetMissingPositions, VerifyPartialProof) and '
+    'spec/Partial.tla (Verify with remember, Ingest, Prune, Modify, Undo, Prove) receives its slices with spare capacity '
+    'filled with sentinels; contents, length and spare capacity are compared after the call, and every result returned '
+    'earlier in the behaviour (proofs, hash lists, update data) is re-compared after every later call. Non-trivial: a '
+    'state-changing or proving step; distinct by (witness history, step).')
+PLAN['C17']['bounds'] = {'quick': 'core: n<=5, undo depth 1, one round trip; light client: n<=5 undo depth 1; proof operations: all states n<=5; partial forest: n<=4',
+                         'thorough': 'core: n<=6, undo depth 2; light client: n<=5 depth 2; proof operations: n<=6; partial forest: n<=5'}
+
+
+def serial_spec(name, decoder, frames, negative=False):
+    st = {'kind': 'spec_check', 'name': name, 'module': 'Serial', 'spec': 'Spec',
+          'constants': {'Frames': '<- ' + frames, 'Decoder': '"%s"' % decoder, 'AllowDataEOF': 'TRUE'},
+          'invariants': ['TypeOK', 'Sound', 'Complete'], 'properties': ['Total_']}
+    if negative:
+        st['expect_violation'] = True
+    return st
+
+
+# --------------------------------------------------------------------------- C13
+PLAN['C13'] = {
+    'stages': lambda tier, seed: (
+        [serial_spec('serial_full', 'full', 'FramesSmall'),
+         serial_spec('serial_single_neg', 'single', 'FramesSmall', negative=True),
+         core('core_restore', ['mod', 'undo', 'restore'], 4, 2, stack=1, und=1, rst=1,
+              x='serial=1,rows=0;3;63,maxtrace=30000', trace_module='SerialTrace'),
+         partial('partial_restore', ['mod', 'vrem', 'prune', 'undo', 'restore'], 4, 2, stack=1, und=1, rst=1,
+                 x='serial=1,maxtrace=30000', trace_module='SerialTrace')] if tier == 'quick' else
+        [serial_spec('serial_full', 'full', 'FramesBig'),
+         serial_spec('serial_single_neg', 'single', 'FramesSmall', negative=True),
+         core('core_restore', ['mod', 'undo', 'restore'], 6, 3, stack=1, und=1, rst=1,
+              x='serial=1,rows=0;1;3;50;63,maxtrace=30000', trace_module='SerialTrace', timeout=14000),
+         core('core_restore2', ['mod', 'undo', 'restore'], 5, 2, stack=2, und=2, rst=2, x='rows=0;3;63'),
+         partial('partial_restore', ALLP + ['restore'], 5, 2, stack=1, und=1, fr=1, rst=1,
+                 x='serial=1,maxtrace=30000', trace_module='SerialTrace', timeout=14000)]),
+    'rule': 'spec/Serial.tla: (1) TLC model-checks a decoder that completes every field against the io.Reader contract - every '
+            'chunking, data-with-EOF, every truncation point of every framing in bounds: accept => stream complete and consumed '
+            'exactly, complete stream never rejected, termination; the single-Read decoder is kept as a negative demonstration '
+            '(TLC must find the violation). (2) Restore is an action of spec/Core.tla and spec/Partial.tla that stutters on the '
+            'abstract state: TLC inserts it anywhere in a behaviour, the harness restores every forest (Pollard, full/partial '
+            'MapPollard, TotalRows of the tier) from its own bytes under a reader policy drawn from {whole, 1 byte, halves, random, '
+            'data+EOF, 1 byte+data+EOF}, compares the restored instance observationally (roots, count, every leaf position, every '
+            'position read, proofs) and continues the behaviour on it (further blocks, undo). (3) On the state of every restore '
+            'transition the harness enumerates every truncation point 0..L under every reader policy and every failure offset of '
+            'the sink (rejecting or partially accepting the crossing write); the outcome must satisfy RestoreOutcome / WriteOutcome '
+            'of spec/Serial.tla; the recorded events are validated by TLC against spec/SerialTrace.tla (R->T). Byte counts and '
+            'Pollard.SerializeSize must equal the stream length. Non-trivial: a line whose last step is a restore or follows one; '
+            'distinct by (witness history, step).',
+    'bounds': {'quick': 'decoder model: framings up to 2 nodes; core: n<=4, adds 0..2, undo depth 1, TotalRows {0,3,63}; partial: n<=4',
+               'thorough': 'decoder model: framings up to 4 nodes; core: n<=6, adds 0..3, TotalRows {0,1,3,50,63}; two restores n<=5; partial: n<=5 with ingest and from-roots'},
+    'exhaustive': {'quick': True, 'thorough': True},
+    'assumptions': ['byte counts are judged on successful calls only (on a failing sink the property fixes only that an error is returned)',
+                    'the wire format is not modelled byte by byte: content fidelity is covered through observational equality of the restored instance',
+                    'free term algebra for hashes; exhaustive only within the stated bounds'],
 }
